@@ -820,7 +820,7 @@ def pred_c10(line, st):
         return None
     kind = a[0]
     t = tag_of(a)
-    good = t == "honest" or t.startswith(("equiv:", "short:"))
+    good = t == "honest" or t.startswith(("honest:", "equiv:", "short:"))
     bad = t.startswith(("mut:", "cheat:", "guard:")) or t.startswith(RESIGNED_MUST_REFUSE)
     if kind == "sign":
         st["sign"] = st.get("sign", 0) + 1
@@ -850,6 +850,8 @@ def pred_c10(line, st):
     if kind == "roundtrip":
         v = [x for x in a if x.startswith("value=")][0][6:]
         return None if r[0] == v else "decryption returned %s, encrypted was %s" % (r[0][:20], v[:20])
+    if kind == "boundary":
+        return None if r[0] == "1" else "honest boundary case refused (%s)" % " ".join(a[1:])
     if kind in ("secretkey.check", "secretkey.verify"):
         return None if r[0] == "1" else "%s failed on a generated key" % kind
     if kind in ("sqrtmp", "sqrtmn"):
